@@ -257,7 +257,17 @@ func c20Random(c *core.Ctx, k *core.Case) {
 			if b > max+1 {
 				b = max + 1
 			}
+			if r.Chance(1, 4) {
+				// start values far outside the range, up to the top of int64
+				const top = int64(^uint64(0) >> 1)
+				a = []int64{top, top - 1, top - rng + 1, top - rng, top - 2*rng, 1 << 62, 1<<62 + 1, 1 << 32, 1<<32 - 1, 1 << 31, 1<<31 - 1, rng, rng + 1, 2*rng - 1, 1<<63 - 1 - int64(r.Intn(int(4*rng)))}[r.Intn(15)]
+				b = a
+				if r.Bool() {
+					b = top
+				}
+			}
 			o = c20Op{1, a, b}
+			c.Cover("inrange_start", c20StartClass(a, rng))
 		default:
 			if len(liveGuess) > 0 && r.Chance(4, 5) {
 				j := r.Intn(len(liveGuess))
@@ -272,9 +282,13 @@ func c20Random(c *core.Ctx, k *core.Case) {
 			liveGuess = append(liveGuess, e.id)
 		}
 		log = append(log, e)
+		if i&0x3ff == 0 {
+			c.J.Tick()
+		}
 	}
 	// offline check of the recorded history
 	m := &c20Model{min: min, max: max, live: map[int64]bool{}}
+	effFrees := int64(0)
 	for i := range log {
 		e := &log[i]
 		if e.failed {
@@ -282,6 +296,9 @@ func c20Random(c *core.Ctx, k *core.Case) {
 		}
 		if e.op.kind != 2 && !e.failed && e.hOff == 0 {
 			c.Count("offset_wraps_observed", 1)
+		}
+		if e.op.kind == 2 && m.live[e.op.a] {
+			effFrees++
 		}
 		if sig, msg := m.step(e, true); sig != "" {
 			// shrink to the prefix that fails and hand it out as an explicit history
@@ -295,6 +312,24 @@ func c20Random(c *core.Ctx, k *core.Case) {
 	}
 	c.Eval(int64(len(log)))
 	c.Count("random_histories", 1)
+	if effFrees > c.Report().Counters["max_effective_frees_one_allocator"] {
+		c.Report().Counters["max_effective_frees_one_allocator"] = effFrees
+	}
+}
+
+func c20StartClass(a, rng int64) string {
+	const top = int64(^uint64(0) >> 1)
+	switch {
+	case a > top-rng:
+		return "within-range-of-maxint64"
+	case a >= 1<<62:
+		return ">=2^62"
+	case a >= 1<<31:
+		return ">=2^31"
+	case a >= rng:
+		return ">=range"
+	}
+	return "in-range"
 }
 
 func init() {
@@ -320,6 +355,12 @@ func init() {
 			}
 			if cnt["offset_wraps_observed"] == 0 {
 				f = append(f, "no scan-offset wrap observed")
+			}
+			if cov["inrange_start"]["within-range-of-maxint64"] == 0 || cov["inrange_start"][">=2^31"] == 0 {
+				f = append(f, "no Allocate_inRange start value near the top of int64 / above 2^31")
+			}
+			if cnt["max_effective_frees_one_allocator"] < 1500 {
+				f = append(f, fmt.Sprintf("longest history released only %d live identifiers on one allocator", cnt["max_effective_frees_one_allocator"]))
 			}
 			if cnt["random_histories"] == 0 || cnt["enumerated_histories"] == 0 {
 				f = append(f, "a workload layer did not run")
@@ -380,6 +421,14 @@ func init() {
 					if i < 2 {
 						c.Sample(k.Brief())
 					}
+				}
+				// long histories: thousands of releases on one allocator
+				for i := 0; i < c.Pick(2, 20); i++ {
+					min := int64([]int{0, 1, 5, 100}[c.R.Intn(4)])
+					size := int64(c.R.Range(2, 48))
+					k := &core.Case{Oracle: "random", Target: "uePolicyContainer.IDGenerator", I: []int64{min, min + size - 1, int64(c.R.Uint64() >> 1), int64(c.Pick(8000, 30000))}}
+					c.Do(k)
+					c.NonTrivial(k.Hash())
 				}
 			}})
 		}
